@@ -388,6 +388,16 @@ def run_rotation_case(ctx, jax, jnp, wh, rng, shape, kind, typed_key=False, as_n
   while len({s0} | {s for _, s in others}) < 5:
     others = [make_key(jax, rng, typed_key) for _ in range(4)]
   wit = {'shape': list(shape), 'values': kind, 'key_seed': s0, 'typed_key': typed_key, 'numpy_input': as_numpy}
+  if size >= 2 and rng.rand() < 0.12:
+    # "all real input vectors": narrow integer dtypes with magnitudes near their limits (sums must not wrap around)
+    idt = [np.int8, np.uint8, np.int16][rng.randint(3)]
+    hi = {np.int8: 120, np.uint8: 250, np.int16: 30000}[idt]
+    xi = np.clip(np.round(np.asarray(x, np.float64) / (np.max(np.abs(x)) + 1e-30) * hi), 0 if idt is np.uint8 else -hi, hi)
+    if not np.any(xi):
+      xi = xi + hi
+    x = xi.astype(idt)
+    wit['input_dtype'] = str(np.dtype(idt))
+    ctx.klass('rot-dtype:' + str(np.dtype(idt)))
   xin = x if as_numpy else jnp.asarray(x)
   if len(shape) == 0:
     ctx.klass('rot-shape:0d')
